@@ -240,9 +240,13 @@ impl<'a, 't> Gen<'a, 't> {
         let h = if self.t.flag() { self.t.below(24) as u8 } else { h };
         let m = self.t.below(60) as u8;
         let s = self.t.below(60) as u8;
-        if self.t.ratio(1, 4) && self.g.want("TOD_FRACTION") && self.g.want("C10_TOD_FRACTION") {
-            let ms = self.t.below(1000) as u32;
-            Time::from_hms_micro(h, m, s, ms * 1000).unwrap()
+        if self.t.ratio(1, 4) && self.g.want("TOD_FRACTION") {
+            // milliseconds or microseconds.  KF-C10-05 (the renderer pads the microsecond count to
+            // two digits only) concerns fractions below 0.1 s: while it is known, fractions start at
+            // 0.1 s - those the renderer gets right, with up to six digits
+            let micro = if self.t.flag() { self.t.below(1000) as u32 * 1000 } else { self.t.below(1_000_000) as u32 };
+            let micro = if self.g.want("C10_TOD_FRACTION") || micro >= 100_000 { micro } else { 100_000 + micro };
+            Time::from_hms_micro(h, m, s, micro).unwrap()
         } else {
             Time::from_hms(h, m, s).unwrap()
         }
